@@ -32,12 +32,35 @@ PANDAS_NA_TEXTS = {"None", "NA", "N/A", "NULL", "null", "NaN", "nan", "-NaN", "-
                    "#N/A N/A", "1.#IND", "-1.#IND", "1.#QNAN", "-1.#QNAN"}
 
 
+def rename_column(spec, table, old, new):
+    """Give a sidecar column (and every reference to it, and the table column) another name."""
+    def walk(nodes):
+        for n in nodes:
+            if isinstance(n, dict) and "g" in n:
+                walk(n["g"])
+            elif isinstance(n, dict) and n.get("kind") == "ref" and n.get("ref") == old:
+                n.update(t="{" + new + "}", id="ref:" + new, ref=new)
+    for col in spec["columns"].values():
+        if col["kind"] == "categorical":
+            for tree in col["entries"].values():
+                walk(tree)
+        elif col["kind"] == "value":
+            walk(col["template"])
+    spec["columns"] = {(new if k == old else k): v for k, v in spec["columns"].items()}
+    spec["order"] = [new if k == old else k for k in spec["order"]]
+    table["header"] = [new if h == old else h for h in table["header"]]
+
+
 @st.composite
 def strategy(draw):
     used = set()
     spec = draw(gen_tab.sidecar_spec(VERSION, 1, 4, used=used, hed_column=True))
     mode = draw(st.sampled_from(["tsv", "df", "file"]))
     table = draw(gen_tab.table_for(spec, VERSION, used, onset=draw(st.booleans())))
+    # an annotated column may carry any name, also the name of a timing column
+    bearing = [h for h in table["header"] if h in spec["columns"] and spec["columns"][h]["kind"] != "ignored"]
+    if "onset" not in table["header"] and bearing and draw(st.integers(0, 3)) == 0:
+        rename_column(spec, table, bearing[0], draw(st.sampled_from(["duration", "onset"])))
     for row in table["rows"]:
         for i, c in enumerate(row):
             row[i] = c.replace('"', "q").replace("\t", " ")
